@@ -1,6 +1,7 @@
 ;;@lemma joinRow-frame
 ;;@tags C02
 ;;@defs joinRow
+;;@axiom
 ; a write outside the joined range does not change the join
 ;;@statement
 (assert (forall ((row (Array Int String)) (j Int) (v String) (off Int) (n Int) (sep String))
